@@ -119,7 +119,13 @@ class C02(Check):
                                         "A - B*Q^C misses a curve point by %r m" % (n, pts, (A, B, Cc), (rA, rB, rC), worst),
                                         dict(rp, link=link.name, observed=[A, B, Cc], expected=[rA, rB, rC])))
         else:
-            self.fit3 = max(self.fit3, max(abs((A - B * q ** Cc) - h) for q, h in pts if q > 0 or Cc > 0))
+            worst = max(abs((A - B * q ** Cc) - h) for q, h in pts)
+            self.fit3 = max(self.fit3, worst)
+            # three points, three coefficients: the least-squares fit is an interpolation (observed residual <= 3e-14 m)
+            if n == 3 and worst > 1e-6 * (1.0 + abs(pts[0][1])) and not any(f.key == "head-pump-3pt-curve-fit" for f in failures):
+                failures.append(Failure("head-pump-3pt-curve-fit",
+                                        "3-point pump curve %r: fitted (A,B,C)=%r misses a curve point by %r m" % (pts, (A, B, Cc), worst),
+                                        dict(rp, link=link.name, observed=worst, expected=0.0)))
         pcb = self._pump_consts(wntr)
         z = 0.0
         if Cc <= 1:
@@ -404,7 +410,7 @@ class C02(Check):
         broken += self._conditions(ctx, wntr)
         broken += self._smoothing(ctx, wntr)
         corpus = [c["spec"] for _, c in vlib.corpus_items(self.pid) if "spec" in c]
-        specs = corpus + C.gen_specs(ctx, 30 if ctx.quick else 400, 16 if ctx.quick else 96)
+        specs = corpus + C.gen_specs(ctx, 30 if ctx.quick else 400, 18 if ctx.quick else 108)
         f, b = self._static_rows(ctx, wntr, specs[: (26 if ctx.quick else 250)])
         failures += f
         broken += b
@@ -420,7 +426,7 @@ class C02(Check):
         wntr = vlib.import_wntr()
         self.max_ratio, self.fit3 = {}, 0.0
         corpus = [c["spec"] for _, c in vlib.corpus_items(self.pid) if "spec" in c]
-        f, b = self._run_specs(ctx, wntr, corpus + C.gen_specs(ctx, 60, 32))
+        f, b = self._run_specs(ctx, wntr, corpus + C.gen_specs(ctx, 60, 36))
         return f
 
     def replay(self, ctx, path):
